@@ -86,4 +86,15 @@ Section Verify.
     | Some None => false
     | Some (Some f) => negb (listed bl f)
     end.
+  (* one verification against a pool holding the CA (key, curve) with blocklist bl *)
+  Definition verify_one (key : list N) (cv : N) (bl : list (list N)) (a : anycert) : bool :=
+    (curve_of a =? cv) && check_signature key a && blocklist_pass bl a.
 End Verify.
+
+(* A pool keeps no memory of what it verified: a history of verifications is judged one by one. [seen] is what a
+   remembering implementation could consult; the verdicts do not. *)
+Fixpoint verify_history (verdict : anycert -> bool) (seen todo : list anycert) : list bool :=
+  match todo with
+  | [] => []
+  | a :: r => verdict a :: verify_history verdict (a :: seen) r
+  end.
